@@ -32,7 +32,7 @@ pub fn tables() -> serde_json::Value {
     serde_json::json!({"rust_keywords": rust, "rust_keywords_legal_in_incan": accepted})
 }
 
-pub const POSITIONS: [(&str, &str); 27] = [
+pub const POSITIONS: [(&str, &str); 29] = [
     ("local", "def main() -> None:\n    NAME = 5\n    println(f\"{NAME}\")\n"),
     ("mutlocal", "def main() -> None:\n    mut NAME = 5\n    NAME += 2\n    NAME = NAME * 2\n    println(f\"{NAME}\")\n"),
     ("param", "def f(NAME: int) -> int:\n    return NAME + 1\n\ndef main() -> None:\n    println(f\"{f(2)}\")\n"),
@@ -60,6 +60,9 @@ pub const POSITIONS: [(&str, &str); 27] = [
     ("reflectfields", "model M:\n    a: int\n    NAME: int\n\ndef main() -> None:\n    m = M(a=1, NAME=3)\n    for fld in m.__fields__():\n        println(f\"field {fld}\")\n"),
     ("reflectclass", "class NAME:\n    a: int\n\n    def get(self) -> int:\n        return self.a\n\ndef main() -> None:\n    m = NAME(a=3)\n    println(m.__class_name__())\n"),
     ("jsonkey", "@derive(Serialize)\nmodel M:\n    a: int\n    NAME: int\n\ndef main() -> None:\n    m = M(a=1, NAME=3)\n    println(json_stringify(m))\n"),
+    // a type under this name built with keyword arguments out of declaration order and with a defaulted field left out
+    ("modelkwargs", "model NAME:\n    x: int\n    y: int = 7\n\ndef main() -> None:\n    p = NAME(y=2, x=1)\n    q = NAME(x=5)\n    println(f\"{p.x} {p.y} {q.x} {q.y}\")\n"),
+    ("classkwargs", "class NAME:\n    x: int\n    y: int = 7\n\n    def sum(self) -> int:\n        return self.x * 10 + self.y\n\ndef main() -> None:\n    p = NAME(y=2, x=1)\n    q = NAME(x=5)\n    println(f\"{p.sum()} {q.sum()}\")\n"),
     ("whilevar", "def main() -> None:\n    mut NAME = 0\n    while NAME < 3:\n        NAME = NAME + 1\n    println(f\"{NAME}\")\n"),
 ];
 
@@ -72,6 +75,95 @@ pub const BUILTIN_LIKE: [&str; 28] = [
     "get", "insert", "remove", "append", "pop", "swap", "contains", "upper", "lower", "strip", "split", "replace", "join", "keys",
     "values", "count", "index", "startswith", "endswith", "reserve", "len", "sum", "min", "max", "str", "int", "abs", "items",
 ];
+
+/// Rename sweep: in every program of the corpus and of the repository that the pipeline accepts, each declared
+/// lower-case identifier in turn is renamed (all its occurrences, token-wise) to a Rust keyword that is a legal
+/// Incan identifier; if the checker still accepts the program, code generation must still succeed (the generated
+/// text is parsed by syn inside the pipeline: an identifier emitted without its `r#` does not get through).
+fn rename_sweep(out: &mut Out, tier: &str, legal_kw: &[String]) {
+    use incan_syntax::lexer::TokenKind as T;
+    use incan_core::lang::keywords::KeywordId as K;
+    use incan_core::lang::punctuation::PunctuationId as P;
+    use incan_core::lang::operators::OperatorId as O;
+    let mut files: Vec<String> = Vec::new();
+    for dir in ["/verif/corpus/c03", "/verif/corpus/fmt", "/repo/examples", "/repo/tests/fixtures/valid", "/repo/tests/codegen_snapshots"] {
+        let mut stack = vec![std::path::PathBuf::from(dir)];
+        while let Some(d) = stack.pop() {
+            if let Ok(rd) = std::fs::read_dir(&d) {
+                for e in rd.filter_map(|e| e.ok()) {
+                    let p = e.path();
+                    if p.is_dir() { stack.push(p); } else if p.extension().map(|x| x == "incn").unwrap_or(false) { files.push(p.to_string_lossy().to_string()); }
+                }
+            }
+        }
+    }
+    files.sort();
+    let per_file = if tier == "thorough" { 40 } else { 5 };
+    let kws: Vec<&String> = legal_kw.iter().filter(|k| !["type", "Self", "self", "crate", "super"].contains(&k.as_str())).collect();
+    let (mut n_base, mut n_cases, mut n_check_rejects, mut kw_i) = (0u32, 0u32, 0u32, 0usize);
+    for f in &files {
+        let Ok(src) = std::fs::read_to_string(f) else { continue };
+        if !matches!(crate::util::catch(|| runner::compile(&src)), Ok(Ok(_))) { continue; }
+        let Ok(toks) = incan_syntax::lexer::lex(&src) else { continue };
+        n_base += 1;
+        // declared lower-case names
+        let mut names: Vec<String> = Vec::new();
+        for i in 0..toks.len() {
+            let T::Ident(name) = &toks[i].kind else { continue };
+            if !name.chars().next().map(|c| c.is_lowercase() || c == '_').unwrap_or(false) || name == "self" || name == "main" || name.starts_with("__") { continue; }
+            let prev = if i > 0 { Some(&toks[i - 1].kind) } else { None };
+            let next = toks.get(i + 1).map(|t| &t.kind);
+            let declared = matches!(prev, Some(T::Keyword(K::Def | K::For | K::Mut | K::Let | K::Const)))
+                || (matches!(next, Some(T::Punctuation(P::Colon))) && matches!(prev, Some(T::Punctuation(P::LParen | P::Comma) | T::Newline | T::Indent | T::Dedent)))
+                || (matches!(next, Some(T::Operator(O::Eq))) && matches!(prev, Some(T::Newline | T::Indent | T::Dedent)));
+            if declared && !names.contains(name) { names.push(name.clone()); }
+        }
+        let tag = f.trim_start_matches("/repo/").trim_start_matches("/verif/").replace('/', ":");
+        for name in names.iter().take(per_file) {
+            let kw = kws[kw_i % kws.len()].as_str();
+            kw_i += 1;
+            // rebuild the text, replacing the identifier tokens (and whole words inside f-string tokens)
+            let mut text = String::new();
+            let mut at = 0usize;
+            for t in &toks {
+                if t.span.start < at || t.span.end > src.len() { continue; }
+                match &t.kind {
+                    T::Ident(n) if n == name => { text.push_str(&src[at..t.span.start]); text.push_str(kw); at = t.span.end; }
+                    T::FString(_) => {
+                        text.push_str(&src[at..t.span.start]);
+                        let body = &src[t.span.start..t.span.end];
+                        let mut o = String::new();
+                        let bytes: Vec<char> = body.chars().collect();
+                        let mut j = 0;
+                        while j < bytes.len() {
+                            let is_word = |c: char| c.is_alphanumeric() || c == '_';
+                            if is_word(bytes[j]) && (j == 0 || !is_word(bytes[j - 1])) {
+                                let mut k2 = j;
+                                while k2 < bytes.len() && is_word(bytes[k2]) { k2 += 1; }
+                                let w: String = bytes[j..k2].iter().collect();
+                                if w == *name { o.push_str(kw); } else { o.push_str(&w); }
+                                j = k2;
+                            } else { o.push(bytes[j]); j += 1; }
+                        }
+                        text.push_str(&o);
+                        at = t.span.end;
+                    }
+                    _ => {}
+                }
+            }
+            text.push_str(&src[at..]);
+            let real = match crate::util::catch(|| runner::compile(&text)) {
+                Ok(Ok(_)) => "generated".to_string(),
+                Ok(Err((stage, _))) if stage == "check" || stage == "parse" || stage == "lex" => { n_check_rejects += 1; continue; }
+                Ok(Err((stage, msg))) => format!("{stage}-error {}", msg.replace(' ', "_").chars().take(100).collect::<String>()),
+                Err(m) => format!("panic {}", m.replace(' ', "_").chars().take(100).collect::<String>()),
+            };
+            n_cases += 1;
+            out.case(&format!("c13 rename {tag} {name} {kw}"), &real);
+        }
+    }
+    out.meta(&serde_json::json!({"rename_sweep_programs": n_base, "rename_cases": n_cases, "renamed_but_rejected_by_front_end": n_check_rejects}));
+}
 
 pub fn run(out: &mut Out, tier: &str, seed: u64, _scratch: &str) {
     let mut rng = Rng::new(seed);
@@ -157,6 +249,7 @@ pub fn run(out: &mut Out, tier: &str, seed: u64, _scratch: &str) {
     // (b) programs
     let legal_kw: Vec<String> = t["rust_keywords_legal_in_incan"].as_array().map(|a| a.iter().filter_map(|v| v.as_str().map(|s| s.to_string())).collect()).unwrap_or_default();
     let legal_kw: Vec<String> = legal_kw.into_iter().filter(|k| k != "Self").collect();
+    rename_sweep(out, tier, &legal_kw);
     let mut jobs: Vec<(String, String)> = Vec::new(); // (position, name)
     for (pos, _) in POSITIONS {
         jobs.push((pos.to_string(), "zeta".to_string()));
